@@ -163,8 +163,8 @@ pub fn c05(tier: Tier) -> i32 {
         Tier::Thorough => {
             for m in M7 {
                 for d in [1usize, 3, 65] {
-                    runs.push((c05_cfg(m, d, 6, 4), caps(120)));
-                    runs.push((c05_cfg(m, d, 2, 6), caps(120)));
+                    runs.push((c05_cfg(m, d, 7, 4), caps(60)));
+                    runs.push((c05_cfg(m, d, 2, 6), caps(60)));
                 }
             }
         }
@@ -215,7 +215,7 @@ pub fn c06(tier: Tier) -> i32 {
         }
         Tier::Thorough => {
             for m in M7 {
-                runs.push((c06_cfg(m, 2, 7, false), caps(200)));
+                runs.push((c06_cfg(m, 2, 7, false), caps(150)));
             }
         }
     }
@@ -237,7 +237,7 @@ pub fn c19(tier: Tier) -> i32 {
         }
         Tier::Thorough => {
             for m in M7 {
-                runs.push((c06_cfg(m, 3, 6, true), caps(200)));
+                runs.push((c06_cfg(m, 3, 7, true), caps(150)));
             }
         }
     }
@@ -307,7 +307,7 @@ pub fn c07(tier: Tier) -> i32 {
             for a in lattice {
                 for b in lattice {
                     if a != b {
-                        runs.push((c07_cfg(a, b, None, 5), caps(60)));
+                        runs.push((c07_cfg(a, b, None, 6), caps(30)));
                     }
                 }
             }
@@ -373,9 +373,9 @@ pub fn c18(tier: Tier) -> i32 {
         }
         Tier::Thorough => {
             for m in M7 {
-                runs.push((c18_cfg(m, 3, &M7, 6), caps(200)));
-                runs.push((c18_cfg(m, 65, &M7, 5), caps(100)));
-                runs.push((c18_cfg(m, 1, &M7, 5), caps(100)));
+                runs.push((c18_cfg(m, 3, &M7, 6), caps(150)));
+                runs.push((c18_cfg(m, 65, &M7, 5), caps(60)));
+                runs.push((c18_cfg(m, 1, &M7, 5), caps(60)));
             }
         }
     }
